@@ -190,6 +190,19 @@ def sweep_corpus_digits(job: dict) -> dict:
     return col.dump()
 
 
+def sweep_opentherm(job: dict) -> dict:
+    """A structured grid for the one code with a nested protocol of its own: every OpenTherm data-id x message type x boundary value
+    (correct parity), so that every value decoder (u8 / s8 / u16 / s16 / f8.8 / flag8, per data-id) sees its extremes."""
+    from vf.env.quiet import quiet_logs
+    from vf.gen import frames as G
+
+    quiet_logs()
+    col = Collector()
+    for ln in G.opentherm_lines(job["lo"], job["hi"]):
+        check_line(col, ln, "G6", frozenset(), {"grid": "opentherm"})
+    return col.dump()
+
+
 # --- streams ------------------------------------------------------------------------------------
 def _iter_text_lines(text: str) -> list[tuple[str, str]]:
     """Reference framing of a packet-log text (harness-side): universal newlines, strip, skip blank/#."""
@@ -623,6 +636,7 @@ def run(ctx: Ctx, col: Collector) -> None:
     step = (npairs + k - 1) // k
     ctx.parallel(sweep_pairs, [{"lo": a, "hi": min(a + step, npairs), "per_pair": ctx.n(20, 1200)} for a in range(0, npairs, step)], col)
     ctx.parallel(sweep_corpus_digits, [{"lo": i, "step": ctx.workers} for i in range(ctx.workers)], col)
+    ctx.parallel(sweep_opentherm, [{"lo": a, "hi": a + 16} for a in range(0, 256, 16)], col)
     ctx.parallel(explore_streams, ctx.shards(ctx.n(2_400, 60_000), per_shard_min=20), col)
     ctx.parallel(explore_streams, ctx.shards(ctx.n(1_200, 30_000), per_shard_min=20, via="mqtt"), col)
     ctx.parallel(explore_partitions, ctx.shards(ctx.n(640, 16_000), per_shard_min=10), col)
